@@ -1,6 +1,5 @@
 """C01 Binary round trip: parse(bytes(m)) reproduces m for every message value."""
 from .. import catalogue, shapes, sym
-from ..explore import region_func
 from ..spec import specmsg as sm
 
 PROPERTY = "C01"
@@ -15,17 +14,6 @@ def bounds(tier, params):
     if s2:
         return shapes.Bounds(rep=2, mapn=2, strlen=2, depth=2, wide_first_only=True)
     return shapes.Bounds(rep=3, mapn=2, strlen=3, depth=2, wide_first_only=True)
-
-
-@region_func
-def container_float_nan(env):
-    """some element of a repeated / map float field is NaN"""
-    parts = []
-    for name, v in env.vars.items():
-        if getattr(v, "_vf_float", False) or isinstance(v, float):
-            if "[" in name or ".v" in name or ".k" in name:
-                parts.append(v.isnan() if getattr(v, "_vf_float", False) else v != v)
-    return sym.sym_or(*parts)
 
 
 def h_roundtrip(env):
@@ -53,6 +41,56 @@ def h_roundtrip(env):
         env.check("witness:reference-reads-same-value", sm.canon_equal(cat, "M", sm.canon_of_ref(cat, "M", r), exp))
 
 
+def h_two_messages(env):
+    """two independent values of one class in one process: encode a, encode b, decode b, decode a.  Nothing computed for one message
+    (memoised encodings, shared default objects, class-level tables) may leak into the other"""
+    cat = catalogue.get(env.params["cat"])
+    mod = shapes.build_bp(cat)
+    b = shapes.Bounds(rep=1, mapn=1, strlen=1, depth=2)
+    va = shapes.gen_value(env, cat, "M", pfx="a.", b=b)
+    vb = shapes.gen_value(env, cat, "M", pfx="b.", b=b)
+    ma = sm.to_bp(mod, cat, "M", va)
+    da = bytes(ma)
+    mb = sm.to_bp(mod, cat, "M", vb)
+    db = bytes(mb)
+    env.observe("bytes-a", da)
+    env.observe("bytes-b", db)
+    pb = mod.M().parse(db)
+    pa = mod.M().parse(da)
+    for tag, val, m, data, p in (("a", va, ma, da, pa), ("b", vb, mb, db, pb)):
+        exp = sm.canon_of_value(cat, "M", val)
+        env.check("%s:decoded==original" % tag, p == m)
+        env.check("%s:decoded-denotes-value" % tag, sm.canon_equal(cat, "M", sm.canon_of_bp(cat, "M", p), exp))
+        env.check("%s:re-encode-identical" % tag, bytes(p) == data)
+        env.check("%s:encoding-stable" % tag, bytes(m) == data)
+        try:
+            got = sm.spec_decode(cat, "M", data)
+            env.check("%s:spec-view==value" % tag, sm.canon_equal(cat, "M", got, exp))
+        except Exception as e:
+            if type(e).__name__ != "SpecDecodeError":
+                raise
+            env.check("%s:spec-decoder-accepts" % tag, False, str(e))
+        if not env.sym:
+            ref = shapes.build_ref(cat)
+            r = ref["M"].FromString(bytes(data))
+            env.check("witness:%s:reference-reads-same-value" % tag, sm.canon_equal(cat, "M", sm.canon_of_ref(cat, "M", r), exp))
+
+
+TWO_KINDS = ["int32", "sint64", "bool", "enum", "fixed32", "float", "double", "string", "bytes", "message", "wrap:double", "wrap:bool"]
+
+
+def two_units():
+    u = []
+    for kind in TWO_KINDS:
+        for label in catalogue.LABELS:
+            if kind.startswith("wrap:") and label in ("optional", "repeated"):
+                continue
+            u.append(("two-messages[s1 %s %s]" % (kind, label), h_two_messages, {"cat": ["s1", kind, label]}))
+    for key, vk in (("string", "double"), ("bool", "sint64"), ("sint32", "message")):
+        u.append(("two-messages[map %s->%s]" % (key, vk), h_two_messages, {"cat": ["s1map", key, vk]}))
+    return u
+
+
 def units(tier):
     u = []
     for kind in catalogue.S1_KINDS:
@@ -71,6 +109,7 @@ def units(tier):
 
     for kind in ("string", "bytes", "message", "packed", "map"):
         u.append(("long-payload[%s]" % kind, h_long, {"kind": kind}))
+    u += two_units()
     return u
 
 
